@@ -53,9 +53,34 @@ static const char *keep(const char *tag, int arg, int rbds, const char *p)
     return p;
 }
 
+#ifdef SEGCHECK
+#include "segcheck.h"
+#endif
+
 int main(int argc, char **argv)
 {
     int full = argc > 1 && !strcmp(argv[1], "--full");
+#ifdef SEGCHECK
+    /* C18 "constant strings" / pure lookups: the library (a shared object here) must not write to its own data segment while
+     * every lookup function is called over its whole domain, twice, in two different orders */
+    seg_snapshot();
+    for (int round = 0; round < 2; round++)
+        for (int i = 0; i < 256; i++) {
+            int a = round ? 255 - i : i;
+            for (int rbds = 0; rbds < 2; rbds++) {
+                (void)rdsparser_pty_lookup_name((rdsparser_pty_t)a, rbds);
+                (void)rdsparser_pty_lookup_short((rdsparser_pty_t)(a ^ 1), !rbds);
+                (void)rdsparser_pty_lookup_long((rdsparser_pty_t)a, rbds);
+                (void)rdsparser_pty_lookup_name((rdsparser_pty_t)a, rbds);
+            }
+            (void)rdsparser_country_lookup_name((rdsparser_country_t)a);
+            (void)rdsparser_country_lookup_iso((rdsparser_country_t)a);
+            (void)rdsparser_country_lookup_iso((rdsparser_country_t)a);
+        }
+    seg_compare(stdout);
+    (void)full;
+    return 0;
+#endif
     printf("CONST capPs %d\nCONST capRt %d\nCONST capPtyn %d\nCONST afBytes %d\nCONST countryCount %d\n",
            RDSPARSER_PS_LENGTH, RDSPARSER_RT_LENGTH, RDSPARSER_PTYN_LENGTH, RDSPARSER_AF_BUFFER_SIZE, RDSPARSER_COUNTRY_COUNT);
     printf("CONST errNone %d\nCONST errSmall %d\nCONST errLarge %d\nCONST errUncorrectable %d\nCONST strUncorrectable %d\n",
